@@ -10,6 +10,14 @@ CLAIMED = {
          ASMTECH + "; stateful trace validation of sizing-loop hook events (Tr_Sizing)", "7 C03"),
  "C12": ("M6809!Decode is a total decoder checked against the encoder by TLC; TLC enumerates the ill-typed forms (wrong mode / register / too-wide value) for every mnemonic row, which must be rejected; single-edit mutations and random operand strings are assembled and whatever is accepted is judged by TLC: decodes as exactly one instruction of that mnemonic, consuming all bytes, byte count = reserved space",
          ASMTECH, "7 C12"),
+ "C02": ("spec/AsmRef.tla states LayoutInv directly (addresses advance by the bytes emitted, labels name their statement's address) and TLC checks it together with CertOK on all programs of the bounded model; those programs, one labelled frame per opcode-table cell and seeded random programs of 3-200 statements (ORG placements, EQUs, duplicate/undefined labels) are assembled and TLC judges every recorded listing/image/symbol table/origin",
+         ASMTECH, "7 C02"),
+ "C04": ("Asm!Eval is the 16-bit expression semantics (limb multiplication, truncating division, division by zero, overflow latitude); TLC enumerates operand position x {number, EQU before/after, label before/after} op {same} for + - * / in a fixed frame at two origins; each program is assembled and TLC checks that the encoded value equals Eval under the environment the listing itself claims, and the symbol-table values",
+         ASMTECH, "7 C04"),
+ "C05": ("Asm!AcceptableData: FCB/FDB/FCC/RMB byte strings, range rules, non-emitting directives; TLC enumerates list shapes x value classes x spellings and FCC strings from the string-class lattice x delimiters; assembled in labelled frames and judged by TLC",
+         ASMTECH, "7 C05"),
+ "C13": ("termination of the data-dependent sizing loop is a liveness property of spec/AsmSizing.tla checked by TLC (plus bounded-progress invariant); the explored programs, PCR distance sweeps, random valid programs, single-line mutations and random lines are run under a watchdog and TLC judges the outcome clause (ok | parse | translation, diagnostic names a statement); CLI sample as subprocesses: diagnostic => exit != 0, no output file",
+         ASMTECH + "; CLI exit-status / output-file observation", "7 C13"),
 }
 NOT_YET = {}
 props = [json.loads(l) for l in open(V + "/properties.jsonl")]
